@@ -431,6 +431,16 @@ def oracle(c, r, K):
             if differs(flat_vals(aout, cplx), flat_vals([e[2] for e in c["ents"]], cplx)): f.append("A modified although fact != EQUILIBRATE")
             if differs(R, c["R"]) or differs(C, c["C"]): f.append("R or C modified although fact != EQUILIBRATE")
         else:
+            # the flag itself must follow the documented thresholds (ROWCND / COLCND >= 0.1, AMAX between SMALL and LARGE) applied to the
+            # ratios of THIS matrix, whenever they are not within 1 % of a threshold (where rounding may decide)
+            g = ref.gsequ(ar, n, n, c["ents"], [0.0] * n, [0.0] * n, 0.0, 0.0, 0.0)
+            if g is not None and g["info"] == 0 and n > 0:
+                small = ar.div(ar.sfmin, ar.prec); large = ar.div(1.0, small)
+                clear = all(abs(v - ar.th) > 0.01 * ar.th for v in (g["rowcnd"], g["colcnd"])) and \
+                    (g["amax"] > 2 * small and g["amax"] < large / 2)
+                if clear and eq != ref.laqgs_decide(ar, g["rowcnd"], g["colcnd"], g["amax"]):
+                    f.append("flag %d although ROWCND = %.3g, COLCND = %.3g, AMAX = %.3g call for %d (documented thresholds)" % (
+                        eq, g["rowcnd"], g["colcnd"], g["amax"], ref.laqgs_decide(ar, g["rowcnd"], g["colcnd"], g["amax"])))
             # A_out = diag(R)^a A diag(C)^b with (a,b) from the flag, up to rounding; flag none => bit-identical
             f += [x for x in ref.oracle_laqgs(ar, n, n, c["ents"], R, C, 1.0 if eq in (0, 2) else 0.0, 1.0 if eq in (0, 1) else 0.0, 1.0, eq, aout)]
         notran = (c["trans"] == K["NOTRANS"]) != (c["stype"] == K["SLU_NR"])
